@@ -127,6 +127,7 @@ def run(ctx):
     wide_unions(ctx)
     directed_unions(ctx)
     make_required_universal_members(ctx)
+    getitem_exposes_members(ctx)
     g = SchemaGen(ctx.rnd, max_depth=2)
     reqs, exp, info = [], [], []
 
@@ -201,6 +202,43 @@ def directed_unions(ctx):
                     ctx.violation("a | b does not accept exactly the union", form=name, operands=[safe_repr(x) for x in xs],
                                   value=safe_repr(v), union=safe_repr(u))
                     return
+
+
+def getitem_exposes_members(ctx):
+    """d[key] for EVERY declared key (str, tuple — also a tuple that spells a path through nested dicts —, frozenset, int, None,
+    bool, bytes, optional-wrapped) is the declared member; iteration / keys() list exactly the declared keys; the same on the
+    results of + and make_required"""
+    from ..hostile import SPECIAL_KEYS
+    inner = schema.dict({"b": schema.str("nested"), "id": schema.int})
+    base = {"a": inner, ("a", "b"): schema.int.min(0), ("a",): schema.none, (): schema.bool, ("a", "id", "x"): schema.float}
+    for extra in (dict(), {k: schema.bytes for k in SPECIAL_KEYS if k not in base}):
+        decl = dict(base)
+        decl.update(extra)
+        try:
+            d = schema.dict({(optional(k) if i % 3 == 0 else k): v for i, (k, v) in enumerate(decl.items())})
+        except Exception:  # noqa: BLE001
+            continue
+        variants = [("d", d)]
+        try:
+            variants += [("d + schema.dict({'zz': schema.int})", d + schema.dict({"zz": schema.int})), ("make_required(d)", make_required(d))]
+        except Exception as e:  # noqa: BLE001
+            ctx.violation("a combinator check raised " + type(e).__name__, schema=safe_repr(d))
+        for name, s in variants:
+            ctx.count("getitem_probes")
+            try:
+                listed = [k for k in s]
+                for k, want in decl.items():
+                    got = s[k]
+                    if got is not want and not (got == want and safe_repr(got) == safe_repr(want)):
+                        ctx.violation("d[key] does not expose the declared member schema", form=name, key=safe_repr(k),
+                                      declared=safe_repr(want), got=safe_repr(got))
+                        return
+                if set(map(safe_repr, listed)) - {"'zz'"} != set(map(safe_repr, decl)):
+                    ctx.violation("iteration does not list exactly the declared keys", form=name, listed=safe_repr(listed)[:300])
+                    return
+            except Exception as e:  # noqa: BLE001
+                ctx.violation("d[key] / iteration raised %s for a declared key" % type(e).__name__, form=name, exception=safe_repr(e)[:200])
+                return
 
 
 def make_required_universal_members(ctx):
